@@ -267,6 +267,8 @@ def first_state(meta):
 def ext_menu(meta, cfg):
     """External calls available before an iteration."""
     tg = cfg["ext_targets"]
+    if cfg.get("ext_menu") == "engage-only":
+        return [("engage", None, False), ("none", None, False)]
     menu = [("none", None, False), ("engage", None, False)]
     menu += [("engage", t, False) for t in tg]
     menu.append(("engage", None, True))
